@@ -1,7 +1,6 @@
 package props
 
 import (
-	"go/token"
 	"go/types"
 	"strings"
 
@@ -27,7 +26,7 @@ func rulePanicInventory(c *chk.Ctx) {
 			continue
 		}
 		ir.Instrs(g, func(ins ssa.Instruction) {
-			if u, ok := ins.(*ssa.UnOp); ok && u.Op == token.ARROW && chk.LoadsField(u.X, c.M.RCh) {
+			if _, _, ok := slotRecvAt(c, ins); ok {
 				slotRecv = append(slotRecv, g)
 			}
 		})
